@@ -325,9 +325,23 @@ def rejection_case(op, ka, kb):
                 max_forks_per_site=4)
 
 
+def _rand_recorder():
+    """replay helper: records the values returned by rand / rand_like, call by call"""
+    calls = []
+
+    class Rec(TorchDispatchMode):
+        def __torch_dispatch__(self, func, types, args=(), kwargs=None):
+            out = func(*args, **(kwargs or {}))
+            if func._schema.name.split("::", 1)[1] in ("rand", "rand_like"):
+                calls.append(out.reshape(-1).tolist())
+            return out
+
+    return Rec(), calls
+
+
 def product_law_case(translated=False):
     """dependent product: b points are accepted with probability vol_A(b)/max vol (L4); also when the
-    dependent factor is wrapped in a Translate"""
+    dependent factor is wrapped in a Translate, and also in a SECOND round on the same object"""
     cname = "dependent_product/accept_proportional_to_fibre_measure" + ("/translated_factor" if translated else "")
 
     def body(env):
@@ -341,72 +355,56 @@ def product_law_case(translated=False):
         env.assume(a.oset.positive({"t": [lbv]}, L))
         env.assume(a.oset.positive({"t": [ubv]}, L))
         D = a.dom * b.dom
-        if env.symbolic:
-            n0 = len(env.ctx.rand_calls)
-        n_out, b_points, _ = D._sample_uniform_b_points(2)
-        out = dict(n_out=n_out, b=b_points, a=a)
+        orig = D._sample_uniform_b_points
+        rounds = []
+        for rnd in range(2):  # the second round is the history: same object, own proposals, own bound
+            if env.symbolic:
+                from symtorch.harness import _zr
+                n0, p0 = len(env.ctx.rand_calls), len(env.ctx.pc)
+                n_out, _, _ = orig(2)
+                calls = env.ctx.rand_calls[n0:]
+                rounds.append(dict(n_out=n_out, bdraw=[_zr(v) for v in calls[0][2]], udraw=[_zr(v) for v in calls[1][2]],
+                                   pc=list(env.ctx.pc)[:], p0=p0))
+            else:
+                mode, calls = _rand_recorder()
+                with mode:
+                    n_out, _, _ = orig(2)
+                rounds.append(dict(n_out=n_out, bdraw=calls[0], udraw=calls[1], pc=[], p0=0))
         # the public entry point must route a product whose first factor's measure depends on the second
         # factor through this acceptance step
         used = []
-        orig = D._sample_uniform_b_points
 
         def rec(*a_, **k_):
             used.append(1)
             return orig(*a_, **k_)
 
         D._sample_uniform_b_points = rec
-        npc = len(env.ctx.pc) if env.symbolic else 0
-        # history: a second acceptance round on the SAME product object uses the bound of ITS OWN proposals
-        if env.symbolic:
-            n1 = len(env.ctx.rand_calls)
-        n_out2, _, _ = orig(2)
-        out["n_out2"] = n_out2
-        if env.symbolic:
-            from symtorch.harness import _zr as _z
-            calls2 = env.ctx.rand_calls[n1:]
-            out["bdraw2"] = [_z(v) for v in calls2[0][2]]
-            out["udraw2"] = [_z(v) for v in calls2[1][2]]
-            out["pc2"] = list(env.ctx.pc)[npc:]
-            npc = len(env.ctx.pc)
+        out = dict(rounds=rounds, a=a, lb=lbv, ub=ubv)
         try:
             D.sample_random_uniform(n=1)
-        except Exception as e:  # noqa  (unwinding etc. are BaseException-free here; a real failure is C01's business)
+        except Exception as e:  # noqa  (a real failure of the sampling call is C01's business)
             out["sample_exc"] = repr(e)
         out["acceptance_step_used"] = bool(used)
         out["is_constant_flag"] = bool(D._is_constant)
-        if env.symbolic:
-            out["npc"] = npc
-        if env.symbolic:
-            from symtorch.harness import _zr
-            calls = env.ctx.rand_calls[n0:]
-            out["bdraw"] = [_zr(v) for v in calls[0][2]]
-            out["udraw"] = [_zr(v) for v in calls[1][2]]
-            out["pc"] = list(env.ctx.pc)[:out["npc"]]
-            out["lb"], out["ub"] = lbv, ubv
         return out
 
     def goals(o, L, env):
         yield "dependent_product_sampled_through_acceptance_step", o["acceptance_step_used"] and not o["is_constant_flag"]
-        if not L.symbolic:
-            return
-        import z3
         a = o["a"]
-        # proposals t_j = lb + u_j (ub - lb); fibre volume v_j = vol_A(t_j)
-        ts = [o["lb"] + u * (o["ub"] - o["lb"]) for u in o["bdraw"]]
-        vs = [a.oset.volume({"t": [t]}, L) for t in ts]
-        M = L.max(vs[0], vs[1])
-        want = [L.lt(M * u, v) for u, v in zip(o["udraw"], vs)]
-        # the path condition fixes which rows were accepted; it must coincide with the required rule
-        pc = L.And(*o["pc"]) if o["pc"] else True
-        kept = o["n_out"]
-        yield "path_accepts_exactly_rows_with_M_u_lt_v", L.Implies(pc, z3.If(want[0], 1, 0) + z3.If(want[1], 1, 0) == kept)
-        ts2 = [o["lb"] + u * (o["ub"] - o["lb"]) for u in o["bdraw2"]]
-        vs2 = [a.oset.volume({"t": [t]}, L) for t in ts2]
-        M2 = L.max(vs2[0], vs2[1])
-        want2 = [L.lt(M2 * u, v) for u, v in zip(o["udraw2"], vs2)]
-        pc2 = L.And(*(o["pc"] + o["pc2"])) if (o["pc"] or o["pc2"]) else True
-        yield "second_round_accepts_exactly_rows_with_M_u_lt_v", L.Implies(
-            pc2, z3.If(want2[0], 1, 0) + z3.If(want2[1], 1, 0) == o["n_out2"])
+        for ri, r in enumerate(o["rounds"]):
+            # proposals t_j = lb + u_j (ub - lb); fibre volume v_j = vol_A(t_j); accepted iff max_j v_j * u_j < v_j
+            ts = [o["lb"] + u * (o["ub"] - o["lb"]) for u in r["bdraw"]]
+            vs = [a.oset.volume({"t": [t]}, L) for t in ts]
+            M = L.max(vs[0], vs[1])
+            nm = "round%d_accepts_exactly_rows_with_M_u_lt_v" % (ri + 1)
+            if L.symbolic:
+                import z3
+                want = [L.lt(M * u, v) for u, v in zip(r["udraw"], vs)]
+                pc = L.And(*r["pc"]) if r["pc"] else True
+                yield nm, L.Implies(pc, z3.If(want[0], 1, 0) + z3.If(want[1], 1, 0) == r["n_out"])
+            else:
+                want = [M * u < v for u, v in zip(r["udraw"], vs)]
+                yield nm, sum(1 for w in want if w) == r["n_out"]
 
     return Case(cname, body, goals, family="dependent_product", params=dict(translated=translated), max_paths=16)
 
